@@ -117,7 +117,11 @@ pub fn bfs<S: Space>(space: &S, limits: &Limits) -> (Stats, Vec<Violation>) {
     let mut first_samples: Vec<Vec<String>> = vec![];
     while !frontier.is_empty() {
         if depth >= limits.max_depth {
-            stats.capped = Some(format!("depth cap {} reached with {} unexpanded states", limits.max_depth, frontier.len()));
+            stats.capped = Some(format!(
+                "depth cap {} reached with {} unexpanded states",
+                limits.max_depth,
+                frontier.len()
+            ));
             break;
         }
         // expand in chunks so that a wall-clock cap can stop between chunks
@@ -128,7 +132,8 @@ pub fn bfs<S: Space>(space: &S, limits: &Limits) -> (Stats, Vec<Violation>) {
                 capped = true;
                 break;
             }
-            let exps: Vec<Expansion<S::Aux>> = chunk.par_iter().map(|st| space.expand(st)).collect();
+            let exps: Vec<Expansion<S::Aux>> =
+                chunk.par_iter().map(|st| space.expand(st)).collect();
             for (st, e) in chunk.iter().zip(exps.into_iter()) {
                 stats.transitions += e.transitions;
                 violations.extend(e.violations);
